@@ -51,8 +51,8 @@ CLAIMED = {
          'digitized_energy_in_channel (ENERGY inside the rounded PHA channel for any nearest rounding), centre_in_channel, rintHalf_close; every distinct rmf in the CALDB checked over all channels; '
          'the chain PHA/PI/ENERGY/MC_* on simulated files incl. charging; the energy used by xpselect/xpbin.',
          'Lean kernel + Mathlib; translator; EBOUNDS tables are data (enumerated); FITPACK linear spline for channel_to_energy of the rmf; float32 storage tolerance 3e-6 keV.'),
- 'C02': ('proof', 'Lean 4 theorems about a RealLike model of xStokesAnalysis (per bin and per event list), tied by correspondence on Float and an independent published-formula oracle on real xpbin files',
-         'pd_nonneg, pa_abs_le_90, mdp_in_unit, empty_bin, pol_errs_nonneg, stokes_errs_nonneg, polarization_eq_published / mdp_eq_published (under the code masks the outputs are eqs. 21/36/22/37/A.8), '
+ 'C02': ('proof', 'Lean 4 theorems about a RealLike model of xStokesAnalysis; the per-bin functions are regenerated from the masked-array source by the translator and proved equal to the model; correspondence on Float and an independent published-formula oracle on real xpbin files',
+         'gen_polarization/stokes_errors/mdp/neff_eq_model (generated code = model), gen_ranges, pd_nonneg, pa_abs_le_90, mdp_in_unit, empty_bin, pol_errs_nonneg, stokes_errs_nonneg, polarization_eq_published / mdp_eq_published (under the code masks the outputs are eqs. 21/36/22/37/A.8), '
          'neff_nonneg, adjacent_bins_partition; all columns of polarization_table compared with the model (static methods on degenerate bins, constructor with weights/acceptance correction), '
          'PCUBE files from the real xpbin against the formulae written independently (DUs, weights, acceptcorr, MC energy, LIST and EQP binnings, empty bins), weight-scheme guard.',
          'Lean kernel + Mathlib; model + generators; SIGNIF uses scipy (external); response splines as per-event values; float32 FITS columns (2e-5); '
@@ -77,8 +77,8 @@ CLAIMED = {
          'phases for any exact inverse), rvs_in_window, tail_share (the repaired share of the last partial period follows the profile) with tail_share_old_fails; oracles: round trip envelope, '
          'xEphemeris.rvs (sorted, in window, fold = phase, KS in free-running phase, tail share), periodic source data flow through the GTI filter, xpphase on two files.',
          'Lean kernel + Mathlib; translator; FITPACK spline inversion measured (partial): envelope 5e-12·periods + 2e-7 + 16 ulp(MET)·ν₀; fixed-seed statistics with 6σ / KS bands.'),
- 'C07': ('proof', 'Lean 4 theorems about a model of the file summation (weighted average branches, cube/LC/quadrature sums), tied by correspondence through the real xBinned* classes',
-         'moment_additive (all four branches), wAvg2_comm/iadd_comm, fold_sums and sum_perm_invariant (any order or grouping of any number of files gives the same additive columns and, '
+ 'C07': ('proof', 'Lean 4 theorems about a model of the file summation; _weighted_average, the cube and the light-curve __iadd__ are regenerated from the source by the translator and proved equal to the model; correspondence through the real xBinned* classes',
+         'gen_weighted_average/pcube_iadd/lc_iadd_eq_model (generated code = model), moment_additive (all four branches), wAvg2_comm/iadd_comm, fold_sums and sum_perm_invariant (any order or grouping of any number of files gives the same additive columns and, '
          'for total I > 0, the same MU/E_MEAN hence the same derived columns), bin_append/iadd_empty_right (sum = binning merged events), lc_rate_additive/lc_zero_exposure, quad_comm/quad_assoc; '
          'oracle: random partitions of a master event list binned by the real xpbin and summed in all orders vs the product of the merged events for PCUBE (weighted or not), PHA1, PP, CMAP '
          '(and the written sum), MDPMAPCUBE, PMAPCUBE, LC; the compatibility guard.',
